@@ -315,6 +315,8 @@ struct TS {
     losses: Vec<f64>,
     /// an evaluation forward after a backward: its input and real output (a further backward may follow)
     eval_x: Option<(Vec<usize>, Vec<f64>, Vec<usize>, Vec<f64>)>,
+    /// the currently open Model object has run a forward (so `backward` has an output to work on)
+    model_has_output: bool,
 }
 
 fn build_layers<'a>(specs: &[LayerSpec], params: &Params, acts: &'a [Option<Activation>]) -> Vec<Box<dyn Layer + 'a>> {
@@ -566,7 +568,7 @@ fn train_span(sim: &mut Sim, src: &mut dyn Source, rec: &mut Vec<Ev>, specs: &[L
     sim.train_first_layer = Some(specs[0].clone());
     sim.train_param_count = specs.len() * 2;
     sim.train_layer_count = specs.len();
-    let mut ts = TS { layers: specs.to_vec(), cost, lr, phase: Phase::Idle, iter: 0, x: None, target: None, before: None, before_handles_had_grad: false, pending: None, last_batch_dims: None, after_update: false, reference: None, class, out_dims_real: None, loss_real: None, target_dims: None, frozen: Vec::new(), eval_iter: 0, iclass: String::new(), pairs: Vec::new(), refs: Vec::new(), losses: Vec::new(), eval_x: None };
+    let mut ts = TS { layers: specs.to_vec(), cost, lr, phase: Phase::Idle, iter: 0, x: None, target: None, before: None, before_handles_had_grad: false, pending: None, last_batch_dims: None, after_update: false, reference: None, class, out_dims_real: None, loss_real: None, target_dims: None, frozen: Vec::new(), eval_iter: 0, iclass: String::new(), pairs: Vec::new(), refs: Vec::new(), losses: Vec::new(), eval_x: None, model_has_output: false };
     while !sim.dead {
         let ev = match src.next(sim) {
             Some(e) => e,
@@ -578,7 +580,10 @@ fn train_span(sim: &mut Sim, src: &mut dyn Source, rec: &mut Vec<Ev>, specs: &[L
                 begin(sim, &ev);
                 end(sim, &StepOut::Done);
                 sim.train.sessions += 1;
-                sim.train_phase = 2;
+                sim.train_phase = if ts.phase == Phase::AfterBwd { 4 } else { 2 };
+                if ts.phase == Phase::AfterBwd {
+                    sim.fault("F12_model_rebuilt_between_backward_and_update");
+                }
                 let close_all;
                 {
                     let refs: Vec<&mut dyn Layer> = taps.iter_mut().map(|t| t as &mut dyn Layer).collect();
@@ -590,7 +595,14 @@ fn train_span(sim: &mut Sim, src: &mut dyn Source, rec: &mut Vec<Ev>, specs: &[L
                 let (_, now, any_grad) = obs_params(&handles);
                 let ag = any_grad && ts.after_update;
                 sim.judge_pending(&mut ts, &now, ag);
-                ts.phase = Phase::Idle;
+                // gradients deposited by backward live on the layers' parameters: a model rebuilt around the
+                // same layers may still update with them; an un-differentiated output is lost with the model
+                if ts.phase != Phase::AfterBwd {
+                    ts.phase = Phase::Idle;
+                }
+                ts.model_has_output = false;
+                ts.eval_x = None;
+                sim.train_eval_pending = false;
                 sim.model_output_iter = None;
                 sim.train_phase = 1;
                 if close_all {
@@ -612,8 +624,9 @@ fn train_span(sim: &mut Sim, src: &mut dyn Source, rec: &mut Vec<Ev>, specs: &[L
                 end(sim, &StepOut::Done);
             }
             Ev::Freeze { layer, param, on } => {
-                if *layer >= taps.len() || *param >= 2 {
-                    skip(sim, &ev, "no such parameter");
+                if *layer >= taps.len() || *param >= 2 || ts.phase == Phase::AfterBwd {
+                    // (not between a backward and its update: the iteration would no longer be the one that was started)
+                    skip(sim, &ev, "no such parameter, or an iteration is in flight");
                     continue;
                 }
                 begin(sim, &ev);
@@ -674,6 +687,7 @@ fn model_span(sim: &mut Sim, src: &mut dyn Source, rec: &mut Vec<Ev>, model: &mu
                     let r = catch_unwind(AssertUnwindSafe(|| model.forward(x)));
                     match r {
                         Ok(out) => {
+                            ts.model_has_output = true;
                             ts.eval_x = Some((dims.clone(), to_f64(&crate::world::to_float(vals)), out.dimensions().to_vec(), to_f64(out.values())));
                             sim.train_out_dims = Some(out.dimensions().to_vec());
                             sim.train_eval_pending = true;
@@ -744,6 +758,7 @@ fn model_span(sim: &mut Sim, src: &mut dyn Source, rec: &mut Vec<Ev>, model: &mu
                 }
                 ts.last_batch_dims = Some(dims.clone());
                 ts.iter += 1;
+                ts.model_has_output = true;
                 sim.model_output_iter = Some(ts.iter);
                 if let Some(n) = input_node {
                     sim.model_pins.insert(n, ts.iter);
@@ -775,16 +790,18 @@ fn model_span(sim: &mut Sim, src: &mut dyn Source, rec: &mut Vec<Ev>, model: &mu
                 sim.train_out_dims = ts.out_dims_real.as_ref().map(|o| o.0.clone());
                 end(sim, &StepOut::Done);
             }
-            Ev::Bwd { dims, vals } => {
+            Ev::Bwd { dims, vals, target_slot } => {
                 // a backward follows a forward; after an evaluation forward it accumulates a further gradient
                 let accumulating = ts.phase == Phase::AfterBwd && ts.eval_x.is_some();
+                // a further backward on the same forward (another target for the same output)
+                let again = ts.phase == Phase::AfterBwd && ts.eval_x.is_none() && ts.model_has_output;
                 if accumulating {
                     let e = ts.eval_x.clone().unwrap();
                     ts.x = Some((e.0, e.1));
                     ts.out_dims_real = Some((e.2, e.3));
                 }
                 // the target has the output's shape or is broadcast against it (a target row for a whole batch)
-                let ok = (ts.phase == Phase::AfterFwd || accumulating)
+                let ok = (ts.phase == Phase::AfterFwd || accumulating || again)
                     && numel(dims) == vals.len()
                     && ts.out_dims_real.as_ref().map(|o| dims.len() <= o.0.len() && crate::refmodel::broadcast_dims(dims, &o.0).as_deref() == Some(&o.0[..])).unwrap_or(false);
                 if !ok {
@@ -793,6 +810,9 @@ fn model_span(sim: &mut Sim, src: &mut dyn Source, rec: &mut Vec<Ev>, model: &mu
                 }
                 if ts.out_dims_real.as_ref().map(|o| o.0 != *dims).unwrap_or(false) {
                     sim.fault("F12_target_broadcast_against_output");
+                }
+                if again {
+                    sim.fault("F4_second_backward_on_the_same_forward");
                 }
                 if accumulating {
                     sim.fault("F4_gradient_accumulation_over_two_batches");
@@ -817,6 +837,12 @@ fn model_span(sim: &mut Sim, src: &mut dyn Source, rec: &mut Vec<Ev>, model: &mu
                 }
                 begin(sim, &ev);
                 let t = mk(dims, vals);
+                if let Some(tsl) = target_slot {
+                    // the caller keeps a handle of the target: once backward has returned nothing else may share it
+                    let node = sim.new_leaf_node(dims, &tv, "target handed to a model");
+                    sim.put(*tsl, t.clone(), HInfo { node, tracked: false, keep: false, explicit: Explicit::No });
+                    sim.model_pins.insert(node, u64::MAX);
+                }
                 let r = catch_unwind(AssertUnwindSafe(|| model.backward(t)));
                 let loss = match r {
                     Ok(l) => l as f64,
